@@ -168,6 +168,10 @@ func cmdC06(args []string) error {
 			build.Files["nest/a/side.bin"] = randBytes(rng, 300)
 			build.Files["nest/empty.bin"] = []byte{}
 			build.Dirs["nest/a/b/emptydir"] = true
+			// (directories that come AFTER nest/a in the container's order, for damages that break several directories)
+			build.Files["nest/m-later/keep.bin"] = randBytes(rng, 500)
+			build.Files["zz-last/tail.bin"] = randBytes(rng, 700)
+			build.Symlinks["zz-last/link"] = "tail.bin"
 			build.Symlinks["nest/link"] = "a/side.bin"
 		}
 		sdir, dir := filepath.Join(root, "signed"), filepath.Join(root, "target")
@@ -257,6 +261,29 @@ func cmdC06(args []string) error {
 					os.Symlink(la, filepath.Join(dir, "nest", "a"))
 					line.Damage = append(line.Damage, "dir->symlink-to-lookalike-dir(hides subtree):nest/a")
 					line.DirSwap = true
+					// ... and on top of it one or two LATER directories broken too (a file, a dangling link, another
+					// look-alike link in their place), with a large missing directory tree that keeps the healer busy
+					if rng.Intn(2) == 0 {
+						for _, later := range [][]string{{"nest", "m-later"}, {"zz-last"}}[rng.Intn(2):] {
+							lp := filepath.Join(append([]string{dir}, later...)...)
+							switch rng.Intn(3) {
+							case 0:
+								os.RemoveAll(lp)
+								os.WriteFile(lp, []byte("file"), 0644)
+								line.Damage = append(line.Damage, "dir->file:"+strings.Join(later, "/"))
+							case 1:
+								os.RemoveAll(lp)
+								os.Symlink("nowhere-at-all", lp)
+								line.Damage = append(line.Damage, "dir->symlink:"+strings.Join(later, "/"))
+							default:
+								la2 := filepath.Join(root, fmt.Sprintf("lookalike2-%d-%s", k, later[len(later)-1]))
+								copyDir(lp, la2)
+								os.RemoveAll(lp)
+								os.Symlink(la2, lp)
+								line.Damage = append(line.Damage, "dir->symlink-to-lookalike-dir:"+strings.Join(later, "/"))
+							}
+						}
+					}
 				case 2:
 					p := filepath.Join(dir, "nest", "a", "side.bin")
 					os.Remove(p)
